@@ -176,10 +176,13 @@ reads it) is the documented representation of the message:
 the `Any` values of the message (`modeOk`, per value; void for messages without `Any` values) —
 the structure facts are carried by the round-trip induction.
 
-* a j5 `Any` is `{"!type": typeName, "value": …}` (`Wire.Conforms.any`; the value itself is the
-  stored `j5_json`, not constrained further).
+* a j5 `Any` is `{"!type": typeName, "value": data}` where `data` renders to exactly the stored
+  `j5_json` (`Wire.Conforms.anyJ5`, `C08_any_j5_value_verbatim`: the chunk is inserted verbatim).
 
-* a protobuf `Any` is `{"!type": name, "value": <encoding of the content>}`.
+* a protobuf `Any` is `{"!type": name, "value": data}`: the URL is `type.googleapis.com/name`,
+  `name` resolves to the content's root, and `data` is again the documented representation of the
+  content (`Wire.Conforms.anyPbObj / anyPbOne`, `C08_any_pb_value_conforms`: `Wire.RootConforms` of
+  the inner message — the relation recurses through `Any` values).
 
 Missing for `C08_conforms_full`: messages populating both kinds of `Any`; an exposed oneof inlined from a flattened object. -/
 theorem C08_conforms_partial (c : Cfg) (hs : c.env.flat = true) (L : OracleLaws c.O)
@@ -209,12 +212,69 @@ theorem C08_any_shape (env : Env) (O : Oracle) (f : Nat) (pb : Bool) (v : PVal) 
       t = .obj (.cons (ascii "!type") l1 (.str tn l2) (.cons (ascii "value") l3 data (.nil .closed))) :=
   any_shape env O f pb v t h
 
+/-- **what the wire-format relation demands of a j5 `Any`** (round 4; inversion of
+`Wire.Conforms`, which `C08_conforms_partial` establishes for every value of the message): the
+document is `{"!type": typeName, "value": data}` and **`data` renders to exactly the stored
+`j5_json`** — the value is the stored chunk verbatim, whatever else the `Any` carries. -/
+theorem C08_any_j5_value_verbatim (env : Env) (O : Oracle) (tn proto j5 : Bytes) (ik : InnerKind)
+    (iroot : String) (inner : PVal) (t : PTree)
+    (h : Wire.Conforms env O (.any false) (.anyJ5 tn proto j5 ik iroot inner) t) :
+    ∃ l1 l2 l3 data, j5 ≠ [] ∧ data.render = j5 ∧
+      t = .obj (.cons (ascii "!type") l1 (.str tn l2) (.cons (ascii "value") l3 data (.nil .closed))) := by
+  cases h with
+  | anyJ5 _ _ _ _ _ _ l1 l2 l3 data hj hr => exact ⟨l1, l2, l3, data, hj, hr, rfl⟩
+
+/-- **… and of a protobuf `Any`** (round 4): the document is `{"!type": name, "value": data}`, the
+type URL is `type.googleapis.com/` + `name`, `name` resolves to the root the content belongs to, and
+**`data` is the documented representation of the content** as a message of that root
+(`Wire.RootConforms`, recursively: members in schema order, oneofs, scalars per README table, nested
+`Any` values again). -/
+theorem C08_any_pb_value_conforms (env : Env) (O : Oracle) (url val : Bytes) (ik : InnerKind)
+    (iroot : String) (inner : PVal) (t : PTree)
+    (h : Wire.Conforms env O (.any true) (.anyPb url val ik iroot inner) t) :
+    ∃ tn fs l1 l2 l3 data, url = ascii "type.googleapis.com/" ++ tn ∧ inner = .msg fs ∧
+      env.resolve tn = some iroot ∧ Wire.RootConforms env O iroot fs data ∧
+      t = .obj (.cons (ascii "!type") l1 (.str tn l2) (.cons (ascii "value") l3 data (.nil .closed))) := by
+  cases h with
+  | anyPbObj _ tn _ fs props l1 l2 l3 ms hres hfind hmc =>
+    exact ⟨tn, fs, l1, l2, l3, .obj ms, rfl, rfl, hres, Or.inl ⟨props, ms, hfind, rfl, hmc⟩, rfl⟩
+  | anyPbOne _ tn _ fs ops l1 l2 l3 data hres hfind hoc =>
+    exact ⟨tn, fs, l1, l2, l3, data, rfl, rfl, hres, Or.inr ⟨ops, hfind, hoc⟩, rfl⟩
+
 /-! ## Non-vacuity -/
 
 /-- an oracle satisfying both `OracleLaws` and `OracleWire` -/
 example : OracleLaws wireOracle ∧ OracleWire wireOracle := ⟨wireOracle_laws, wireOracle_wire⟩
 example : C01.sampleEnv.flat = true := by decide
 example : valOk C01.sampleEnv wireOracle (.object "t.M") (.msg C01.sampleMsg) = true := by decide
+
+/-- hypotheses of `C08_conforms_partial` for a message that populates a protobuf `Any`, and for one
+with j5 `Any` values (so the `Any` clauses of `Wire.Conforms` are exercised by the theorem) -/
+example : C01.samplePbEnv.flat = true ∧
+    valOk C01.samplePbEnv wireOracle (.object "t.P") (.msg C01.samplePbMsg) = true ∧
+    modeOkF true (6 * (depthFields C01.samplePbMsg + 1) + 9) 0 C01.samplePbMsg = true := by decide
+example : C01.sampleAnyEnv.flat = true ∧
+    valOk C01.sampleAnyEnv C01.anyOracle (.object "t.A") (.msg C01.sampleAnyMsg) = true ∧
+    modeOkF false (6 * (depthFields C01.sampleAnyMsg + 1) + 9) 0 C01.sampleAnyMsg = true := by decide
+/-- the `Any` clauses are inhabited: `{"!type":"t","value":{"k":1}}` for the chunk `{"k":1}`, and a
+protobuf `Any` of `t.v1.I` with content `{id: "x"}` -/
+example : Wire.Conforms C01.sampleAnyEnv C01.anyOracle (.any false)
+    (.anyJ5 (ascii "t") [] (ascii "{\"k\":1}") .none "" (.msg []))
+    (.obj (.cons (ascii "!type") [] (.str (ascii "t") [])
+      (.cons (ascii "value") [] C01.chunkTree (.nil .closed)))) :=
+  Wire.Conforms.anyJ5 _ _ _ _ _ _ _ _ _ _ (by decide) (by decide)
+example : Wire.Conforms C01.samplePbEnv wireOracle (.any true)
+    (.anyPb (ascii "type.googleapis.com/" ++ ascii "t.v1.I") [] .inn "t.I" (.msg [(1, .str (ascii "x"))]))
+    (.obj (.cons (ascii "!type") [] (.str (ascii "t.v1.I") [])
+      (.cons (ascii "value") []
+        (.obj (.cons (ascii "id") [] (.str (ascii "x") []) (.nil .closed))) (.nil .closed)))) :=
+  by
+  refine Wire.Conforms.anyPbObj [] (ascii "t.v1.I") "t.I" [(1, .str (ascii "x"))]
+    [{ jsonName := ascii "id", path := [1], pres := .imp, field := .scalar .string }] [] [] []
+    (.cons (ascii "id") [] (.str (ascii "x") []) (.nil .closed)) (by decide) (by decide) ?_
+  refine Wire.MembersConform.emit _ _ _ (.str (ascii "x")) _ _ _ (by decide) rfl ?_
+    (Wire.MembersConform.nil _)
+  exact Wire.Conforms.scalar _ _ _ rfl
 
 example : scalarOk toyOracle .int64 (.int (-9223372036854775808)) = true := by decide
 example : scalarOk toyOracle .date (.date 33 1 2) = true := by decide
@@ -253,6 +313,38 @@ theorem C08_src_encode_switch_coverage :
     encodeScalarGoTypes = ["*date_j5t.Date", "*decimal_j5t.Decimal", "[]byte", "bool", "float32", "float64",
       "int32", "int64", "string", "time.Time", "uint32", "uint64"] ∧
     encodeValueDefaultIsError = true ∧ encodeScalarDefaultIsError = true := by decide
+
+/-- **`encodeAny` ↔ the `.any` arm of `encValue`; `encodeOneofBody` ↔ `encOneofBody`** (round 4; the
+Go side of `C08_any_shape`): the member names `encodeAny` writes are the literals `"!type"` then
+`"value"` — the model's `typeKey`, `valueKey` —, followed by the type name as a JSON string and the
+data bytes verbatim (`enc.add`); the data is `j5_json` when present, else the re-encoded proto
+content, else an error (c903cda / 691a6dd). `encodeOneofBody` writes `{}` for an unset oneof, else
+`"!type"`, the member's name as a string, and the member under that same name. -/
+theorem C08_src_any_oneof_labels :
+    encodeAnyLabels.map ascii = [typeKey, valueKey] ∧
+    encodeAnyTypeArgs = ["val.TypeName"] ∧ encodeAnyDataArgs = ["jsonData"] ∧
+    encodeAnyIfs =
+      [("err != nil", "err"), ("val.J5Json != nil", "none"), ("val.Proto != nil", "none"),
+       ("err != nil", "err"),
+       ("err := proto.Unmarshal(val.Proto, dst.Interface()); err != nil", "err"),
+       ("err != nil", "err"), ("err != nil", "err"), ("err != nil", "err"), ("err != nil", "err"),
+       ("else of val.Proto != nil", "err")] ∧
+    encodeOneofBodyLabels = ["!type", "<expr> prop.NameInParent()"] ∧
+    encodeOneofBodyIfs =
+      [("err != nil", "err"), ("!isSet", "nil"), ("err != nil", "err"), ("err != nil", "err"),
+       ("err != nil", "err"), ("err := enc.encodeValue(prop); err != nil", "err")] := by
+  decide
+
+/-- the container writers ↔ `encObjectBody` / the `.map` / `.array` / `.enum` arms of `encValue`:
+separators only between members (`!first`), a member is its label then its value, every error is
+handed on (nothing is written "instead") -/
+theorem C08_src_container_shapes :
+    encodeObjectBodyIfs =
+      [("!first", "none"), ("err := enc.fieldLabel(prop.NameInParent()); err != nil", "err"),
+       ("err := enc.encodeValue(prop); err != nil", "err")] ∧
+    encodeMapIfs = [("!first", "none"), ("err != nil", "err")] ∧
+    encodeArrayIfs = [("!first", "none")] ∧
+    encodeEnumIfs = [("err != nil", "err")] := by decide
 
 theorem C08_src_extractor_ok : codecExtractorOk = true := by decide
 
